@@ -252,7 +252,22 @@ func objectItem(s *simrt.Sim, helper string, withSize bool, lt int) *item {
 
 func bytesPayload(s *simrt.Sim, lt int) []byte {
 	// mostly serix encodings of zoo values, sometimes raw / empty / longer than one prefix byte's range
-	switch s.Choose(6) {
+	switch s.Choose(7) {
+	case 6:
+		// around the size up to which ReadBytes allocates up front (4096) and well beyond it
+		if lt >= 1 {
+			n := 4090 + s.Choose(12)
+			if s.Choose(4) == 3 {
+				n = 9000 + s.Choose(100)
+			}
+			b := make([]byte, n)
+			seed := s.Choose(256)
+			for i := range b {
+				b[i] = byte(seed + i*7)
+			}
+			return b
+		}
+		return genRawBytes(s, 1+s.Choose(8))
 	case 0:
 		return []byte{}
 	case 1:
@@ -453,7 +468,16 @@ func streamBody(s *simrt.Sim) {
 	}
 	fam := streamFamilies[fi]
 	nitems := 1 + s.Choose(3)
+	// sometimes the writer already holds bytes (a pre-sized buffer that is overwritten in place): what is written must
+	// land where the writer stands, whatever lies behind it
+	presized := 0
+	if s.Choose(4) == 3 {
+		presized = simrt.Knob(s, 8, 64, 300)
+	}
 	buf := stream.NewByteBuffer()
+	if presized > 0 {
+		buf = stream.NewByteBuffer(presized)
+	}
 	var items []*item
 	for i := 0; i < nitems; i++ {
 		widths = 4
@@ -473,13 +497,21 @@ func streamBody(s *simrt.Sim) {
 	}
 	data, _ := buf.Bytes()
 	data = append([]byte{}, data...)
-	s.Logf("stream %d bytes chunk=%v", len(data), chunk)
+	if presized > 0 {
+		// only what was written counts: cut the stream at the writer's position
+		end, err := buf.Seek(0, io.SeekCurrent)
+		if err != nil || int(end) > len(data) {
+			s.Fail("stream-roundtrip", "ByteBuffer:position", "Seek(0, current) = %d, %v with %d bytes in the buffer", end, err, len(data))
+		}
+		data = data[:end]
+	}
+	s.Logf("stream %d bytes chunk=%v presized=%d", len(data), chunk, presized)
 
 	// In the chunk-free configuration half of the runs read through the package's own ByteReader.
 	var r io.ReadSeeker
 	var sr *simReader
 	var br *stream.ByteReader
-	if !chunk && s.Choose(2) == 1 {
+	if !chunk && presized == 0 && s.Choose(2) == 1 {
 		br = buf.Reader()
 		r = br
 	} else {
